@@ -70,3 +70,22 @@ CHECKS['C15'] = dict(
          '(exact host messages, connection fields or error category). Streams: BFS over open/close/remote-close/WRTE/illegal-packet/'
          'read histories with the id limit patched to 4 (wrap-around inside the bound), each step compared with a session model.',
     note='Single-threaded histories; virtual clock; BFS depth-capped (reported in evidence) unless the frontier empties.')
+
+CHECKS['C01'] = dict(
+    engine='enum', level='model_checking', design_ref='DESIGN.md#c01',
+    technique='bounded-exhaustive enumeration of programs x behaviours x settings on the real executor; record-based PASS-soundness predicate + reference outcome ladder',
+    text='Every node tree with 1 leaf slot (depth<=2, all node kinds) x 39 per-invocation behaviours/option sets, every 2-slot tree '
+         '(groups/subtests/branches/checkpoints) x 39 x 7 behaviours, under defaults and every single deviation of '
+         'stop_on_first_failure (option and CONF), allow_unset_measurements, failure_exceptions and test diagnosers (pairs and 3-slot '
+         'trees in thorough) is executed with Test.execute(); each run is judged by a record-only soundness predicate and against an '
+         'independent outcome ladder.',
+    note='Aborts are C04; timeouts are produced through a virtual deadline clock (module seam in phase_executor); two genuine '
+         'design-level findings (force_repeat / repeat_on_timeout forget an ERROR attempt) are listed in known_findings.json.')
+CHECKS['C02'] = dict(
+    engine='enum', level='model_checking', design_ref='DESIGN.md#c02',
+    technique='bounded-exhaustive program enumeration on the real executor vs an independent reference interpreter of docs/event_sequence.md',
+    text='All trees of phases/groups/subtests/branches/checkpoints up to 3 leaf slots and depth 2 (4 slots / more kinds in thorough) x '
+         'all assignments of behaviours, checkpoint kinds/actions and branch conditions are run on the real TestExecutor and compared '
+         'exactly (body call log, phase/subtest/branch/checkpoint records, diagnoses, outcome) with vf/ref/refexec.py.',
+    note='Plain nested sequences and groups/subtests inside teardown sequences are not compared exactly (document is contradictory there; '
+         'C03 covers them by trace predicates). Sampling beyond the bound is outside this technique family.')
